@@ -169,4 +169,105 @@ theorem unMont_nttMont (m : Mode) (s : List Poly) (hs : ∀ q ∈ s, q.length = 
   unfold unMontCentered invNtt
   rw [hc, ok_bind, hd, ok_bind, he, hes]
 
+/-! ### linearity of the forward specification, and the verifier precompute -/
+
+theorem nttS_cong : ∀ (d k : Nat) (u v : List Int), CongL u v → CongL (nttS d k u) (nttS d k v) := by
+  intro d
+  induction d with
+  | zero => intro k u v h; exact h
+  | succ d ih =>
+    intro k u v h
+    unfold nttS
+    simp only [h.1]
+    have ct := (h.drop (v.length / 2)).map (fun x => zv k * x * RINV) (fun x => zv k * x * RINV)
+      (fun a b hab => (hab.mul_left (zv k)).mul_right RINV)
+    exact (ih (2 * k) _ _ ((h.take (v.length / 2)).zipWith ct _ _ (fun a b a' b' h1 h2 => h1.add h2))).append
+      (ih (2 * k + 1) _ _ ((h.take (v.length / 2)).zipWith ct _ _ (fun a b a' b' h1 h2 => h1.sub h2)))
+
+theorem nttS_scale (c : Int) : ∀ (d k : Nat) (w : List Int), CongL (nttS d k (w.map (fun x => c * x))) ((nttS d k w).map (fun x => c * x)) := by
+  intro d
+  induction d with
+  | zero => intro k w; exact CongL.refl _
+  | succ d ih =>
+    intro k w
+    unfold nttS
+    simp only [List.length_map, List.map_append]
+    have hA : CongL (List.zipWith (fun a t => a + t) ((w.map (fun x => c * x)).take (w.length / 2))
+        (((w.map (fun x => c * x)).drop (w.length / 2)).map (fun x => zv k * x * RINV)))
+        ((List.zipWith (fun a t => a + t) (w.take (w.length / 2)) ((w.drop (w.length / 2)).map (fun x => zv k * x * RINV))).map (fun x => c * x)) :=
+      ⟨by simp, fun i h1 h2 => by
+        simp only [List.getElem_zipWith, List.getElem_map, List.getElem_take, List.getElem_drop]
+        exact cg.of_eq (by grind)⟩
+    have hB : CongL (List.zipWith (fun a t => a - t) ((w.map (fun x => c * x)).take (w.length / 2))
+        (((w.map (fun x => c * x)).drop (w.length / 2)).map (fun x => zv k * x * RINV)))
+        ((List.zipWith (fun a t => a - t) (w.take (w.length / 2)) ((w.drop (w.length / 2)).map (fun x => zv k * x * RINV))).map (fun x => c * x)) :=
+      ⟨by simp, fun i h1 h2 => by
+        simp only [List.getElem_zipWith, List.getElem_map, List.getElem_take, List.getElem_drop]
+        exact cg.of_eq (by grind)⟩
+    exact ((nttS_cong d (2 * k) _ _ hA).trans (ih (2 * k) _)).append ((nttS_cong d (2 * k + 1) _ _ hB).trans (ih (2 * k + 1) _))
+
+theorem cg_chain (x : Int) : cg (x * 4294967296 * 8192 * RINV * 4294967296 * RINV) (8192 * x) := by
+  have hRR : cg (4294967296 * 8265825) 1 := by unfold cg; decide
+  have h2 := (hRR.mul_left (4294967296 * 8265825)).trans (by rw [Int.mul_one]; exact hRR)
+  have key := h2.mul_left (8192 * x)
+  rw [Int.mul_one] at key
+  unfold RINV
+  exact (cg.of_eq (by grind)).trans key
+
+/-- one polynomial of `t1` through the verifier precompute and back through `pk.into_bytes`' arithmetic -/
+theorem pk_poly_round (m : Mode) (t : Poly) (hl : t.length = 256) (ht : ∀ x ∈ t, 0 ≤ x ∧ x ≤ 1023) :
+    ∃ a1 a2 a3 a4 a5 a6, nttPoly m t = .ok a1 ∧ a1.mapM (to_mont_coeff m) = .ok a2 ∧
+      a2.mapM (fun x => mont_reduce m (IT.i64.wrap (x * 2 ^ D.toNat))) = .ok a3 ∧ a3.mapM (to_mont_coeff m) = .ok a4 ∧
+      a4.mapM (mont_reduce m) = .ok a5 ∧ invNttPoly m a5 = .ok a6 ∧ a6.map (fun x => x / 2 ^ D.toNat) = t := by
+  have e13 : (2:Int) ^ D.toNat = 8192 := by decide
+  obtain ⟨a1, h1, b1, c1⟩ := nttPoly_sem m t t (CongL.refl t) (fun x hx => by have := ht x hx; omega)
+  have l1 := nttPoly_len m t a1 hl h1
+  obtain ⟨a2, h2, b2, c2⟩ := mapM_sem (to_mont_coeff m) (fun x => x * 4294967296) (fun x => -67000000 ≤ x ∧ x ≤ 67000000)
+    (fun y => -16760833 ≤ y ∧ y ≤ 16760833)
+    (fun x s hx hxs => by
+      have := pr64s_spec x hx.1 hx.2
+      exact ⟨pr64s x, to_mont_coeff_eq m x hx.1 hx.2, ⟨by omega, by omega⟩, (show cg (pr64s x) (x * 4294967296) from this.1).trans (hxs.mul_right _)⟩)
+    a1 _ c1 (fun x hx => by have := b1 x hx; omega)
+  obtain ⟨a3, h3, b3, c3⟩ := mapM_sem (fun x => mont_reduce m (IT.i64.wrap (x * 2 ^ D.toNat))) (fun x => x * 8192 * RINV)
+    (fun x => -16760833 ≤ x ∧ x ≤ 16760833) (fun y => -67000000 ≤ y ∧ y ≤ 67000000)
+    (fun x s hx hxs => by
+      have hw := wrap64_id (x * 8192) (by omega) (by omega)
+      have hm := montv_spec (x * 8192) (by omega) (by omega)
+      refine ⟨montv (x * 8192), by rw [e13, hw]; exact mont_reduce_eq m _ (by omega) (by omega), ⟨by omega, by omega⟩, ?_⟩
+      exact (montv_cg (x * 8192) (by omega) (by omega)).trans ((hxs.mul_right 8192).mul_right RINV)) a2 _ c2 b2
+  obtain ⟨a4, h4, b4, c4⟩ := mapM_sem (to_mont_coeff m) (fun x => x * 4294967296) (fun x => -67000000 ≤ x ∧ x ≤ 67000000)
+    (fun y => -16760833 ≤ y ∧ y ≤ 16760833)
+    (fun x s hx hxs => by
+      have := pr64s_spec x hx.1 hx.2
+      exact ⟨pr64s x, to_mont_coeff_eq m x hx.1 hx.2, ⟨by omega, by omega⟩, (show cg (pr64s x) (x * 4294967296) from this.1).trans (hxs.mul_right _)⟩)
+    a3 _ c3 b3
+  obtain ⟨a5, h5, b5, c5⟩ := mapM_sem (mont_reduce m) (fun x => x * RINV) (fun x => -16760833 ≤ x ∧ x ≤ 16760833)
+    (fun y => -2143289343 ≤ y ∧ y ≤ 2143289343)
+    (fun x s hx hxs => by
+      have := montv_spec x (by omega) (by omega)
+      exact ⟨montv x, mont_reduce_eq m x (by omega) (by omega), ⟨by omega, by omega⟩, (montv_cg x (by omega) (by omega)).trans (hxs.mul_right _)⟩)
+    a4 _ c4 b4
+  -- a5 ≅ 8192 * nttS t ≅ nttS (8192 * t)
+  have hc5 : CongL a5 ((nttS 8 1 t).map (fun x => 8192 * x)) := by
+    refine c5.trans ?_
+    rw [List.map_map, List.map_map, List.map_map]
+    exact (CongL.refl (nttS 8 1 t)).map _ _ (fun a b h => (cg_chain a).trans (h.mul_left 8192))
+  have hc5' : CongL a5 (nttS 8 1 (t.map (fun x => 8192 * x))) := hc5.trans (nttS_scale 8192 8 1 t).symm
+  obtain ⟨a6, h6, b6, c6⟩ := invNttPoly_of_nttS m a5 (t.map (fun x => 8192 * x)) (by rw [List.length_map]; exact hl) hc5' b5
+  have l6 := invNttPoly_len m a5 a6 (by rw [mapM_len _ _ _ h5, mapM_len _ _ _ h4, mapM_len _ _ _ h3, mapM_len _ _ _ h2]; exact l1) h6
+  refine ⟨a1, a2, a3, a4, a5, a6, h1, h2, h3, h4, h5, h6, ?_⟩
+  rw [e13]
+  apply List.ext_getElem (by rw [List.length_map, l6, hl])
+  intro i g1 g2
+  rw [List.getElem_map]
+  have g1' : i < a6.length := by rw [List.length_map] at g1; exact g1
+  have hb := b6 (a6[i]'g1') (List.getElem_mem _)
+  have hcg : cg (a6[i]'g1') (8192 * t[i]) := by
+    have := c6.2 i g1' (by rw [List.length_map]; exact g2)
+    rw [List.getElem_map] at this
+    exact this
+  have hti := ht t[i] (List.getElem_mem _)
+  unfold cg at hcg
+  omega
+
 end Fips204.Impl
